@@ -11,6 +11,7 @@ CONSTANTS
     MaxFields = 2
     Vias = {"direct", "pipe", "http"}
     Witness = FALSE
+    ReqPayloads = {}
 VIEW View
-PROPERTIES BindsIffEqual RefusedIsTypeError ValuesAndDefaults
+PROPERTIES BindsIffEqual RefusedIsTypeError ValuesAndDefaults RequestColumnIsOrdinary
 CHECK_DEADLOCK FALSE
